@@ -1,4 +1,5 @@
 import LyModel.Merge.LemmasCan3
+import LyModel.Merge.LemmasKeep2
 /-!
 # Duplicate-instance nodes (key-less lists / state leaf-lists), basics: the `k`-th element satisfying a predicate
   (`nthIdx`) as a decomposition of the list, `AbsK` (the `k`-th match has a property) and how the three things a merge
